@@ -7,6 +7,7 @@ import FastgoModel.Proofs.HuffInstance
 import FastgoModel.Proofs.WriterWrap
 import FastgoModel.Proofs.BlockFrame
 import FastgoModel.Reader.FaithfulCheck
+import FastgoModel.Proofs.StreamFrame
 /-
   Line-protocol driver of the executable models (`lake build fgmodel`).
   One case per input line, one answer line per case. Bytes travel as lowercase hex.
@@ -227,6 +228,50 @@ def answerF (src delivered : List UInt8) (k : String) (consumed : Nat) (cut : Bo
       let pre := delivered.isPrefixOf p.out.toList
       s!"bad: Reader ended with {k} after {delivered.length} bytes (prefix-of-spec-output={pre}), consumed={consumed} cut-of-valid={cut}; spec permissive: {verdictStr p} (consumed-at-eof={consumedAtEOF src p}); strict: {verdictStr st}"
 
+
+/-! ### S: a whole stream a real Writer emitted, checked by `checkStream` (Proofs/StreamFrame.lean) -/
+
+def answerS (stream data : List UInt8) : String :=
+  if !checkStream .strict stream then
+    s!"bad: checkStream rejects ({verdictStr (inflate .strict [] stream)})"
+  else
+    match inflate .strict [] stream with
+    | .done out _ _ => if out.toList == data then "ok" else s!"bad: decodes to {out.size} bytes that are not the {data.length} bytes written"
+    | r => s!"bad: {verdictStr r}"
+
+/-! ### FG: a whole gzip file read by the Reader model over the specification inflater -/
+
+def answerFG (file : List UInt8) (k : String) (n : Nat) (h : String) : String :=
+  let p := readAllMembers (specInflater .permissive) (file.length + 1) file
+  let q := readAllMembers (specInflater .strict) (file.length + 1) file
+  let sh := fun (o : Option (List UInt8)) => match o with
+    | some d => s!"ok n={d.length} h={fnv d.toArray}"
+    | none => "error"
+  let same := fun (o : Option (List UInt8)) => match o with
+    | some d => d.length == n && s!"{fnv d.toArray}" == h
+    | none => false
+  if k = "EOF" then
+    if same q || same p then "ok" else s!"bad: Reader ended with io.EOF after {n} bytes; model strict: {sh q}; permissive: {sh p}"
+  else
+    if q.isNone then "ok" else s!"bad: Reader ended with {k} after {n} bytes; model strict: {sh q}"
+
+
+/-! ### FZ: a whole zlib stream (+ what follows) read by the Reader model over the specification inflater -/
+
+def answerFZ (file : List UInt8) (k : String) (n : Nat) (h : String) (left : Nat) : String :=
+  let p := readZlib (specInflater .permissive) file
+  let q := readZlib (specInflater .strict) file
+  let sh := fun (o : Option (List UInt8 × List UInt8)) => match o with
+    | some (d, r) => s!"ok n={d.length} h={fnv d.toArray} left={r.length}"
+    | none => "error"
+  let same := fun (o : Option (List UInt8 × List UInt8)) => match o with
+    | some (d, r) => d.length == n && s!"{fnv d.toArray}" == h && r.length == left
+    | none => false
+  if k = "EOF" then
+    if same q || same p then "ok" else s!"bad: Reader ended with io.EOF after {n} bytes, {left} bytes left in the source; model strict: {sh q}; permissive: {sh p}"
+  else
+    if q.isNone then "ok" else s!"bad: Reader ended with {k} after {n} bytes; model strict: {sh q}"
+
 /-! ### containers and checksums -/
 
 def hexL (bs : List UInt8) : String := if bs.isEmpty then "-" else toHex bs.toArray
@@ -345,6 +390,18 @@ def step (line : String) : String :=
     match parseHex src, parseHex delivered with
     | some a, some b => answerF a b k (parseNat! consumed) (cut = "1")
     | _, _ => "bad-hex"
+  | ["S", stream, data] =>
+    match parseHex stream, parseHex data with
+    | some a, some b => answerS a b
+    | _, _ => "bad-hex"
+  | ["FZ", file, k, n, h, left] =>
+    match parseHex file with
+    | some a => answerFZ a k (parseNat! n) h (parseNat! left)
+    | none => "bad-hex"
+  | ["FG", file, k, n, h] =>
+    match parseHex file with
+    | some a => answerFG a k (parseNat! n) h
+    | none => "bad-hex"
   | ["R", size, chunks, reads, evs] =>
     let cs := (if chunks = "-" then [] else chunks.splitOn ";").filterMap parseChunk
     let rs := (reads.splitOn ",").map parseNat!
